@@ -135,15 +135,22 @@ package cache
 //@ func SubCache.makeCached
 //@   modifies cachedFrom
 //@   defines [wraps] cachedFrom[result] == entity
+// excerptFrom: the cached entity an excerpt was computed from (definition: set by the sub-cache's makeExcerpt);
 // building an excerpt or the index data of an entity only reads it
+//@ ghost var excerptFrom map[Excerpt]CacheEntity
 //@ func SubCache.makeExcerpt
+//@   modifies excerptFrom
+//@   defines [summarises] excerptFrom[result] == arg0
 //@ func SubCache.makeIndexData
 //@   modifies nothing
+// ... it makes every bug or identity the pull reported as new or updated searchable (C11: "a pull makes new and
+// updated bugs and identities visible and searchable without a rebuild") ...
 // ... and what it keeps in memory for a bug or identity the pull reported as new or updated is the merged
 // entity that came with the report - also when an older instance was already loaded (C02: "the entity handed
 // back ... is the merged result"; C11: "later edits made through the cache build on the merged history").
 //@ func (*SubCache).MergeAll$1
 //@   props C07 C11 C02 C18
+//@   stable excerptFrom, cachedFrom
 //@   opt locks
 //@   requires [not-held] sc != nil && sync.rwheld[&sc.mu] == 0
 //@   nopanic typeassert
@@ -152,6 +159,8 @@ package cache
 //@   let last = recvat(results, n - 1)
 //@   loop 1
 //@     invariant [lock-free-between-results] sync.rwheld[&sc.mu] == 0
+//@     invariant [excerpt-refreshed] n > 0 && (last.Status == entity.MergeStatusNew || last.Status == entity.MergeStatusUpdated) && last.Err == nil ==> (last.Id in sc.excerpts) && excerptFrom[sc.excerpts[last.Id]] == sc.cached[last.Id]
+//@     invariant [merged-entity-is-indexed] n > 0 && (last.Status == entity.MergeStatusNew || last.Status == entity.MergeStatusUpdated) && last.Err == nil ==> repository.indexedDocs[string(last.Id)]
 //@     invariant [merged-entity-is-cached] n > 0 && (last.Status == entity.MergeStatusNew || last.Status == entity.MergeStatusUpdated) && last.Err == nil ==> (last.Id in sc.cached) && cachedFrom[sc.cached[last.Id]] == last.Entity
 
 // ---- resolving by prefix / matcher (C13) ---------------------------------------------------------------
@@ -283,12 +292,16 @@ package cache
 //@   ensures [lock-balanced] forall m *sync.RWMutex :: { sync.rwheld[m] } sync.rwheld[m] == old(sync.rwheld[m])
 //@   assert at `sc.cached[e.Id()] = cached` [single-instance] !(e.Id() in sc.cached)
 
+// (C11) when it reports success the excerpt of the entity has been recomputed from the loaded instance and
+// the entity has been (re)indexed.
 //@ func (*SubCache).entityUpdated
-//@   props C18
+//@   props C18 C11
 //@   opt locks
 //@   opt pre_only_if=locks
 //@   requires [not-held] sc != nil && sync.rwheld[&sc.mu] == 0
 //@   ensures [lock-balanced] forall m *sync.RWMutex :: { sync.rwheld[m] } sync.rwheld[m] == old(sync.rwheld[m])
+//@   assert at `sc.mu.Unlock()` [excerpt-recomputed] (id in sc.cached) ==> (id in sc.excerpts) && excerptFrom[sc.excerpts[id]] == sc.cached[id]
+//@   ensures [indexed] result == nil ==> repository.indexOps == old(repository.indexOps) + 1
 
 //@ func (*SubCache).Remove
 //@   props C18
@@ -307,6 +320,8 @@ package cache
 //@   opt locks
 //@   opt pre_only_if=locks
 //@   requires [not-held] sc != nil && sync.rwheld[&sc.mu] == 0
+//@   modifies nothing
+//@   opt trusted_frame
 //@   ensures [lock-balanced] forall m *sync.RWMutex :: { sync.rwheld[m] } sync.rwheld[m] == old(sync.rwheld[m])
 
 //@ func (*SubCache).Close
@@ -323,6 +338,14 @@ package cache
 //@   modifies sync.rwheld
 //@   defines sync.rwheld == update(old(sync.rwheld), entityLock(recv), -1)
 //@ func CacheEntity.NeedCommit
+//@   modifies nothing
+//@ func CacheEntity.Id
+//@   purefn
+//@ func (*lruIdCache).Add
+//@ func (*lruIdCache).GetOldest
+//@ func (*lruIdCache).GetOldestToNewest
+//@   trusted
+//@   opt interior_ok
 //@   modifies nothing
 
 // evictIfNeeded takes the sub-cache lock and, by design, locks every evicted entity for good ("if something
